@@ -322,6 +322,8 @@ struct RecGen {
         if (r.below(1000) < sw.density_pm / 2) a.ae_code = (uint8_t)(r.coin() ? r.below(3) : uint_bits(r, 8));
         if (r.below(1000) < sw.density_pm / 2) a.ae_transport_flags = (CDNS::QueryResponseTransportFlagsMask)(r.coin() ? r.below(3) : uint_bits(r, 8));
         a.ip_address = r.pick(sw.ip_pool);
+        // the count member of the generic structure is an output of the reader; on input every call counts one event whatever it holds
+        if (r.coin()) a.ae_count = r.coin() ? r.below(5) : uint_bits(r, 64);
         return a;
     }
     CDNS::GenericMalformedMessage mm(uint64_t tps) {
